@@ -190,6 +190,32 @@ class Gen:
         self.emit("advance 2" if self.family == "block" else "advance 4")
 
 
+EXH_ALPHABET = [
+    "op {o} tell 0 -", "op {o} ask 0 -", "op {o} ask 0 1", "op {o} stop 0 -", "kill 0", "drop 0",
+    "hook 0 ok", "hook 0 panic", "hook 0 err:5", "run 0 true", "run 0 err:3", "advance 1",
+]
+
+
+def exhaustive_scripts(length, feats=(), caps=(1, 2)):
+    """Every sequence of `length` director actions over EXH_ALPHABET, for one actor whose hooks are
+    gated, per capacity: small-scope exhaustive enumeration (all short schedules, not a sample)."""
+    import itertools
+    out = []
+    for cap in caps:
+        for seq in itertools.product(range(len(EXH_ALPHABET)), repeat=length):
+            lines = [feat_line(feats), "spawn %d 0" % cap]
+            o = 0
+            for i in seq:
+                a = EXH_ALPHABET[i]
+                if "{o}" in a:
+                    o += 1
+                    a = a.replace("{o}", str(o))
+                lines.append(a)
+            lines += ["auto 0 1", "advance 2"]
+            out.append(lines)
+    return out
+
+
 def gen_script(seed, family, length=None, feats=()):
     rng = random.Random(seed)
     g = Gen(rng, family, feats)
